@@ -45,6 +45,10 @@ const MIN_PROTOBUF_TIMESTAMP_SECONDS: i64 = -62_135_596_800;
 const MAX_PROTOBUF_TIMESTAMP_SECONDS: i64 = 253_402_300_799;
 const NANOSECONDS_PER_SECOND: i32 = 1_000_000_000;
 
+#[cfg(slawlor_ractor_verif)]
+#[path = "/verif/hooks/cluster_node_session.rs"]
+pub mod verif_probe;
+
 #[cfg(test)]
 mod tests;
 
